@@ -226,11 +226,14 @@ impl<'a> TypeGenerator<'a> {
                         field.type_name.as_deref(),
                     )?;
                     let is_compact = path.is_compact();
-                    let is_boxed = field
-                        .type_name
-                        .as_ref()
-                        .map(|e| e.contains("Box<"))
-                        .unwrap_or_default();
+                    // A compact field is emitted as `#[codec(compact)] f: T`; `Box<T>` is not `HasCompact`,
+                    // and a compact-encoded number never needs the indirection, so no Box is re-inserted.
+                    let is_boxed = !is_compact
+                        && field
+                            .type_name
+                            .as_ref()
+                            .map(|e| e.contains("Box<"))
+                            .unwrap_or_default();
 
                     for param in path.parent_type_params().iter() {
                         type_params.mark_used(param);
@@ -251,11 +254,14 @@ impl<'a> TypeGenerator<'a> {
                     )?;
 
                     let is_compact = path.is_compact();
-                    let is_boxed = field
-                        .type_name
-                        .as_ref()
-                        .map(|e| e.contains("Box<"))
-                        .unwrap_or_default();
+                    // A compact field is emitted as `#[codec(compact)] f: T`; `Box<T>` is not `HasCompact`,
+                    // and a compact-encoded number never needs the indirection, so no Box is re-inserted.
+                    let is_boxed = !is_compact
+                        && field
+                            .type_name
+                            .as_ref()
+                            .map(|e| e.contains("Box<"))
+                            .unwrap_or_default();
 
                     for param in path.parent_type_params().iter() {
                         type_params.mark_used(param);
